@@ -1228,6 +1228,14 @@ func (e *CEnv) trCall(x *CExpr) CVal {
 		}
 		id := v.d.typeID("func:" + x.Args[0].Name)
 		return CVal{IntLit(int64(-1000 - id)), nil}
+	case "pow2": // 2^n (uninterpreted beyond the facts for 0..64 and positivity)
+		v.d.declareFun("pow2", []string{SInt}, SInt)
+		return CVal{mk("pow2", SInt, e.intOf(e.tr(x.Args[0]))), nil}
+	case "methodof": // method value identity: methodof("(pkg.T).M", recv) for a basic-typed receiver
+		if len(x.Args) != 2 || x.Args[0].Kind != "str" {
+			unsupported("contract: methodof needs a string literal and a receiver")
+		}
+		return CVal{v.methodValue(e.st, x.Args[0].Name, e.tr(x.Args[1]).T), nil}
 	case "beuint", "leuint": // integer value of the first n bytes of a byte string (n constant)
 		b := e.bytesOf(e.tr(x.Args[0]))
 		nn := e.tr(x.Args[1])
